@@ -95,7 +95,7 @@ Proof.
     assert (Nin : ~ In n (vn_params v)).
     { intro Hin. apply in_nat_In in Hin. rewrite <- En in Hit.
       apply Z.leb_le in Hh. rewrite Hh, Hin in Hit. discriminate. }
-    destruct (vn_fvalid v && negb (range_ok (frange (S (length (pt_slots t))) t n) (vn_f0 v) (vn_fmax v))).
+    destruct (vn_ranged v && negb (range_ok (frange (S (length (pt_slots t))) t n) (vn_f0 v) (vn_fmax v))).
     { inversion E; subst. split; [apply shk_refl|]. split; auto. }
     assert (Reg : forall t0 v0, shk t t0 ->
               (forall x, In x (vn_params v0) -> In x (vn_params v) \/ ((0 <= h)%Z /\ reach t (Z.to_nat h) x)) ->
@@ -228,3 +228,37 @@ Proof.
   vm_compute. split; [reflexivity|]. eexists. split; [reflexivity|]. split; [reflexivity|]. split; [|reflexivity].
   repeat constructor; simpl; intuition discriminate.
 Qed.
+
+(* ------------------------------------------------------------------ vnacal_new_t without frequency points *)
+(* vnacal_new_alloc accepts frequencies = 0.  As coded: vnacal_new_set_frequency_vector reads no element
+   (no sign test, no ascending test, no range test of the registered parameters) and succeeds; the range
+   tests of _vnacal_new_get_parameter / _vnacal_new_check_parameter are guarded by
+   vn_frequencies_valid && vn_frequencies > 0; vnacal_new_solve has nothing to solve and succeeds. *)
+Lemma zero_points_setfreq : forall s id v f0, st_freed s = false -> get_new s id = Some v -> vn_nf v = 0 ->
+  step s (OSetFreq id f0)
+  = (with_new s (st_pt s) id (Some (mkVN (vn_type v) (vn_dim v) (vn_nf v) true f0 (vn_params v) (vn_unknowns v)
+                                         (vn_meas v) (vn_cal v))), ok_int 0).
+Proof.
+  intros s id v f0 Fr G Z. unfold step, step_gen. rewrite Fr, G, Z. reflexivity.
+Qed.
+
+Lemma zero_points_in_range : forall t v n, vn_nf v = 0 -> in_range t v n.
+Proof. intros t v n Z. left. unfold vn_ranged. rewrite Z. apply andb_false_r. Qed.
+
+Lemma zero_points_solve : forall s id v b, st_freed s = false -> get_new s id = Some v -> vn_nf v = 0 ->
+  vn_fvalid v = true -> snd (step s (OSolve id b)) = ok_int 0.
+Proof.
+  intros s id v b Fr G Z V. unfold step, step_gen. rewrite Fr, G, V, Z. cbn [negb].
+  rewrite andb_false_r. reflexivity.
+Qed.
+
+(* a parameter that does not cover ANY range of a one-point vnacal_new_t is accepted by a zero-point one,
+   before and after set_frequency_vector with a negative start; the solve succeeds without a standard *)
+Definition zero_script : list op :=
+  [OMakeVector [5; 6]%Z [(10, 0); (20, 0)]%Z 0; ONewAlloc 0 0 1 0; OSetFreq 0 (-5); OAddStd 0 [3%Z] []; OSolve 0 false;
+   OAddCal 0 1; OGetCal 0].
+Example zero_example :
+  map o_ret (snd (run st_initial zero_script))
+  = [RInt 3; RPtr true; RInt 0; RInt 0; RInt 0; RInt 0; RCal 1 0 1 1 0 (-5) (-6)] /\
+  exists v, get_new (run_state (firstn 2 zero_script)) 0 = Some v /\ vn_nf v = 0 /\ vn_fvalid v = false.
+Proof. vm_compute. split; [reflexivity|]. eexists. repeat split. Qed.
